@@ -60,7 +60,7 @@ CLists == {<<>>, <<[h |-> 1, w |-> 40], [h |-> 2, w |-> 4]>>, <<[h |-> 2, w |-> 
            <<[h |-> 1, w |-> 4], [h |-> 1, w |-> 40], [h |-> 3, w |-> 40]>>}
 GAddPlain4 == EpsOf(G4, GOne)
 GAddPlain3 == EpsOf(G3, GOne)
-GAddW == EpsOf(G3, WW)
+GAddW == EpsOf(G3, WW \ {0 - 200})      \* the large negative weight arrives through Refresh lists only
 GRemW == EpsOf(G3, GOne)
 GAddC == EpsOf(G3, CW)
 ====
